@@ -119,14 +119,16 @@ Definition visit_schema_st {S : Type} (init : S) (on_type : S -> ty -> res (ty *
               end) (s_objects s) [] (snd r) ;
   Ok (mkSchema (s_pkg s) (s_meta s) (s_entry s) (fst r) (fold_left add_object (news (snd r2)) (fst r2))).
 
-(* the default traversal with only OnDisjunction set, threading a state *)
+(* the default traversal (array values, map index then value, struct fields, intersection
+   branches) with only OnDisjunction set, threading a state *)
 Section VisitDisj.
   Variable S : Type.
   Variable on_disj : S -> ty -> res (ty * S).
   Fixpoint visit_disj (st : S) (t : ty) : res (ty * S) :=
     match t with
     | TArray a v => do r <- visit_disj st v ; Ok (TArray a (fst r), snd r)
-    | TMap a i v => do r <- visit_disj st v ; Ok (TMap a i (fst r), snd r)
+    | TMap a i v =>
+        do ri <- visit_disj st i ; do r <- visit_disj (snd ri) v ; Ok (TMap a (fst ri) (fst r), snd r)
     | TStruct a dh fs =>
         do r <- (fix go (l : list field) (st : S) : res (list field * S) :=
                    match l with
@@ -221,7 +223,7 @@ Definition anonymous_structs_to_named (ss : schemas) : schemas := map astn_schem
 Fixpoint nrfn_ty (t : ty) : ty :=
   match t with
   | TArray a v => TArray a (nrfn_ty v)
-  | TMap a i v => TMap a i (nrfn_ty v)
+  | TMap a i v => TMap a (nrfn_ty i) (nrfn_ty v)
   | TStruct a dh fs =>
       TStruct a dh (map (fun f =>
         let t' := nrfn_ty (f_type f) in
@@ -396,7 +398,7 @@ Definition senm_member (v : enumval) : res enumval :=
 Fixpoint senm_ty (t : ty) : res ty :=
   match t with
   | TArray a v => do v' <- senm_ty v ; Ok (TArray a v')
-  | TMap a i v => do v' <- senm_ty v ; Ok (TMap a i v')
+  | TMap a i v => do i' <- senm_ty i ; do v' <- senm_ty v ; Ok (TMap a i' v')
   | TStruct a dh fs =>
       do fs' <- (fix go (l : list field) : res (list field) :=
                    match l with
@@ -594,7 +596,9 @@ Definition doaste_name (b : ty) (i : nat) : string :=
 Fixpoint doaste_ty (pkg : string) (st : list (string * object)) (t : ty) : ty * list (string * object) :=
   match t with
   | TArray a v => let '(v', st') := doaste_ty pkg st v in (TArray a v', st')
-  | TMap a i v => let '(v', st') := doaste_ty pkg st v in (TMap a i v', st')
+  | TMap a i v =>
+      let '(i', st1) := doaste_ty pkg st i in
+      let '(v', st') := doaste_ty pkg st1 v in (TMap a i' v', st')
   | TStruct a dh fs =>
       let '(fs', st') := (fix go (l : list field) (st : list (string * object)) : list field * list (string * object) :=
                             match l with
@@ -904,7 +908,9 @@ Section Inline.
   Fixpoint iowt_ty (ctx : ty -> ty) (t : ty) : ty :=
     match t with
     | TArray a v => TArray a (iowt_ty (fun x => ctx (TArray a x)) v)
-    | TMap a i v => TMap a i (iowt_ty (fun x => ctx (TMap a i x)) v)
+    | TMap a i v =>
+        let i' := iowt_ty (fun x => ctx (TMap a x v)) i in
+        TMap a i' (iowt_ty (fun x => ctx (TMap a i' x)) v)
     | TStruct a dh fs =>
         TStruct a dh
           ((fix go (done : list field) (l : list field) : list field :=
